@@ -44,7 +44,7 @@ class C10(LoopCheck):
         def h(ctx):
             S = sx.OPS.sort
             fns = UserFns(d, sort=S)
-            tgt = Target(ctx, d, fns, check_c17=False)
+            tgt = Target(ctx, d, fns, check_c17=bool(cfg.get("check_c17")))
             flow = FlowStub(ctx, d, fns)
             flow.max_draws = cfg["rounds"]
             smp = MCMCSampler(
@@ -76,6 +76,8 @@ class C10(LoopCheck):
                 ctx.prove(fin(lp[i]), "c10/initial_fp/finite_prior", detail={"row": i})
                 ctx.prove(z3.And(lp[i] == fns.PI(*r), lq[i] == fns.Q(*r), ll[i] == fns.L(*r)), "c10/initial_fp/densities", detail={"row": i})
             ctx.prove(smp.n_likelihood_evaluations == n and tgt.n_points == n, "c10/initial_fp/likelihood_once", detail={"points": tgt.n_points})
+            if cfg.get("check_c17"):
+                ctx.prove(smp.n_likelihood_evaluations == tgt.n_points, "c17/count", detail={"reported": smp.n_likelihood_evaluations, "asked": tgt.n_points})
 
         return h
 
